@@ -368,6 +368,51 @@ theorem nearest_valid_frame {β V : Type} (ops : NearOps β) (fuel : Nat) (view 
         rw [nearest_identity_on_valid ops fuel _ h]
       rw [this]
 
+/-! ## parameters_sdcorr: var/cov → sd/corr, also with parameters shared between distributions
+
+  `agree A` (decidable, evaluated by the driver on every generated case) = no parameter is assigned
+  two different values, i.e. a shared parameter has the same role wherever it occurs. -/
+
+/-- Every converted value is computed from the **original** dictionary: the symbol at position
+    `(i, j)` of any joint block ends up as `corr(i, j)` / `sd(i)` of the original values, whatever
+    other distributions share its parameters and wherever the block stands in the collection. -/
+theorem sdcorr_reads_original (sqrt : Rat → Rat) (vals : Dict) (rvs : RVs Entry) (F : Dict)
+    (h : sdcorr sqrt vals rvs = .ok F) (hag : agree (rvs.flatMap (sdcorrAsg sqrt vals)) = true)
+    (d : Dist Entry) (hd : d ∈ rvs) (hj : d.joint = true) (i j : Nat) (hi : i < matRows d.var)
+    (hjc : j < matCols d.var) (s : String) (hs : symAt d i j = some s) :
+    F s = some (fwdVal sqrt vals d i j) :=
+  sdcorr_value_joint h hag hd hj (mem_positions.mpr ⟨hi, hjc⟩) hs
+
+/-- The converted value of every parameter does not depend on the order of the distributions. -/
+theorem sdcorr_order_independent (sqrt : Rat → Rat) (vals : Dict) (rvs rvs' : RVs Entry) (F F' : Dict)
+    (hperm : rvs'.Perm rvs) (h : sdcorr sqrt vals rvs = .ok F) (h' : sdcorr sqrt vals rvs' = .ok F')
+    (hag : agree (rvs.flatMap (sdcorrAsg sqrt vals)) = true) (s : String) : F' s = F s :=
+  sdcorr_order_independent' hperm h h' hag s
+
+/-- Parameters that no distribution uses keep their value. -/
+theorem sdcorr_frame (sqrt : Rat → Rat) (vals : Dict) (rvs : RVs Entry) (F : Dict)
+    (h : sdcorr sqrt vals rvs = .ok F) (s : String)
+    (hno : ∀ p ∈ rvs.flatMap (sdcorrAsg sqrt vals), p.1 ≠ s) : F s = vals s := by
+  rw [(sdcorr_ok h).1]
+  exact applyF_not_assigned _ s hno vals
+
+/-- `sdcorr⁻¹ ∘ sdcorr = id` on every parameter — also when variance/covariance parameters are
+    shared between distributions (same symbol in several normal distributions, the same symbolic
+    block repeated per occasion), for any `sqrt` with `sqrt a · sqrt a = a ≠ 0` on the variances. -/
+theorem sdcorr_inverse (sqrt : Rat → Rat) (vals : Dict) (rvs : RVs Entry) (F : Dict)
+    (h : sdcorr sqrt vals rvs = .ok F) (hag : agree (rvs.flatMap (sdcorrAsg sqrt vals)) = true)
+    (hok : SdOk sqrt vals rvs) (s : String) : sdcorrInv F rvs s = vals s :=
+  sdcorr_inverse' h hag hok s
+
+/-- Reading from the dictionary being written (instead of the original values) converts a shared
+    variance twice: two normal distributions with the same variance 16 give sd 2 instead of 4. -/
+theorem sdcorr_accumulating_witness :
+    let sqrt : Rat → Rat := fun q => if q = 16 then 4 else if q = 4 then 2 else q
+    let vals : Dict := fun s => if s = "OM" then some 16 else none
+    let rvs : RVs Entry := [normal "e1" "IOV" (.num 0) (.sym "OM"), normal "e2" "IOV" (.num 0) (.sym "OM")]
+    (sdcorr sqrt vals rvs).toOption.bind (fun F => F "OM") = some 4 ∧ sdcorrAcc sqrt vals rvs "OM" = some 2 := by
+  decide
+
 /-! ## Model.create / Model.replace: every model has valid initial estimates -/
 
 /-- Valid estimates are returned as they are (the same object). -/
